@@ -21,6 +21,28 @@ FAR = 2 ** 40                                               # delay returned by 
 TWO = ("port2", "redport2")                                 # kinds with two instances in one Environment
 
 
+def _cpk(uids, size, t, flow):
+    return {str(u): {"id": i + 1, "flow": flow, "size": size, "time": t, "src": "src0"} for i, u in enumerate(uids)}
+
+
+CANARY_CASES = [
+    {"kind": "redport2", "pre": False, "order": 0, "uniforms": ["1/4", "1/8", "1/2", "0/1", "3/4", "1/8", "1/2", "1/4"],
+     "insts": [{"kind": "redport", "rate": 64, "eid": "p1", "limit_bytes": False, "qlimit": 4, "late_cfg": True,
+                "red": {"min": 1, "max": 3, "maxp": "1/2", "w": 1},
+                "workload": {"packets": {**_cpk([0, 1, 2], 8, "0/1", 0), **_cpk([3], 8, "1/1", 1)},
+                             "drivers": [{"late": 0, "bursts": [["0/1", [0, 1, 2]], ["1/1", [3]]]}]}},
+               {"kind": "redport", "rate": 64, "eid": "sw3", "limit_bytes": True, "qlimit": 64,
+                "red": {"min": 16, "max": 32, "maxp": "1/4", "w": 0},
+                "workload": {"packets": {**_cpk([100, 101], 16, "0/1", 1), **_cpk([102, 103], 16, "1/1", 2)},
+                             "drivers": [{"late": 1, "bursts": [["0/1", [100, 101]], ["1/1", [102, 103]]]}]}}]},
+    {"kind": "portmon", "rate": 8, "eid": "p1", "pre": False, "limit_bytes": False, "qlimit": 3, "late_cfg": True,
+     "mon": {"incl": True, "dist": ["2/1", "1/1", "3/1"], "first": False},
+     "workload": {"packets": {**_cpk([0, 1, 2], 4, "1/1", 0), **_cpk([3], 2, "1/1", 1)},
+                  "drivers": [{"late": 0, "bursts": [["1/1", [0, 1, 3, 2]]]}]}},
+]
+CANARY_DIGEST = "1b0d74dab2e8ef01"         # recorded on the repaired tree (/repo 4170594); PortPart()._canary() prints it
+
+
 class Script:
     """scripted random source: dist() and random.uniform(0,1) pop from the case's lists"""
 
@@ -234,14 +256,18 @@ class PortPart:
                 insts[1]["eid"] = "sw3" if insts[0]["eid"] != "sw3" else "p1"
             unis = insts[0].pop("uniforms", []) + insts[1].pop("uniforms", [])
             rng.shuffle(unis)
-            return {"kind": kind, "insts": insts, "uniforms": unis, "pre": rng.random() < 0.3, "order": rng.choice([0, 1])}
+            for sub in insts:
+                sub.pop("reconf", None)
+                sub.pop("canary", None)
+            return {"kind": kind, "insts": insts, "uniforms": unis, "pre": rng.random() < 0.3, "order": rng.choice([0, 1]),
+                    "canary": rng.random() < 0.2}
         return self._gen_single(rng, kind)
 
     @staticmethod
     def _offset_uids(sub, k):
         """renumber the packets of a sub-case so that the instances of a two-instance case have disjoint uids"""
         w = sub["workload"]
-        w["packets"] = {str(int(u) + k): {**sp, "id": sp["id"] + k} for u, sp in w["packets"].items()}
+        w["packets"] = {str(int(u) + k): dict(sp) for u, sp in w["packets"].items()}     # ids stay per flow from 1
         for d in w["drivers"]:
             d["bursts"] = [[t, [u + k for u in us]] for (t, us) in d["bursts"]]
 
@@ -252,6 +278,7 @@ class PortPart:
         w = ec.gen_workload(rng, flows=(0, 1, 2), n_max=nmax, sizes=sizes, burst_p=0.45)
         if rate > 0 and len(w["drivers"]) > 1 and rng.random() < 0.4:
             self._align_to_departures(rng, w, rate)
+        self._renumber_ids(w)
         case = {"kind": kind, "workload": w, "rate": rate, "eid": rng.choice([None, "", "p1", "p1", "sw3"]),
                 "pre": rng.random() < 0.3}
         specs = w["packets"]
@@ -289,7 +316,36 @@ class PortPart:
                 lat = [F(0), F(1, 4), F(1, 4), F(1, 2), F(1, 2), F(1), F(1), F(3, 2), F(2), F(3)]
                 case["mon"] = {"incl": rng.random() < 0.5, "dist": [cf.qjson(rng.choice(lat)) for _ in range(rng.randint(1, 14))],
                                "first": rng.random() < 0.3}
+        # late configuration: built with other values (optional arguments left to their defaults), then the public
+        # attributes the code reads at every use are assigned before any traffic
+        case["late_cfg"] = rng.random() < 0.15
+        # a reconfiguration of rate / qlimit BETWEEN packets (the model follows the configuration as of each action)
+        if rng.random() < 0.07:
+            times = sorted({F(t) for d in w["drivers"] for (t, _) in d["bursts"]})
+            at = rng.choice(times) if times and rng.random() < 0.6 else (rng.choice(times) + rng.choice([F(1, 4), F(1, 2), F(1)]) if times else F(1))
+            if kind == "redport":
+                nq = case["red"]["max"] + rng.choice([0, 1, 2]) if not case["limit_bytes"] else max(0, case["qlimit"] + rng.choice([-64, 0, 64, 128]))
+            elif case["limit_bytes"]:
+                nq = rng.choice([None, 0, szs[0], sum(szs[:2]), sum(szs[:3]) + 1])
+            else:
+                nq = rng.choice([None, 0, 1, 2, 3, 4])
+            case["reconf"] = {"at": cf.qjson(at), "late": rng.choice([0, 0, 1, 2]),
+                              "rate": rng.choice([r for r in (0, 8, 64, 1024, 2 ** 20) if r != rate] + [rate]), "qlimit": nq}
+        # a fixed small scenario run before and after this case in the same process: nothing may leak between runs
+        case["canary"] = rng.random() < 0.2
         return case
+
+    @staticmethod
+    def _renumber_ids(w):
+        """packet ids per flow from 1 in arrival order, as DistPacketGenerator numbers them: equal ids of different flows
+        are inside the port together (the harness uid stays the identity)"""
+        order = sorted(((F(t), di, bi) for di, d in enumerate(w["drivers"]) for bi, (t, _) in enumerate(d["bursts"])))
+        nxt = {}
+        for (_, di, bi) in order:
+            for u in w["drivers"][di]["bursts"][bi][1]:
+                sp = w["packets"][str(u)]
+                nxt[sp["flow"]] = nxt.get(sp["flow"], 0) + 1
+                sp["id"] = nxt[sp["flow"]]
 
     @staticmethod
     def _truncate(w, n):
@@ -329,6 +385,26 @@ class PortPart:
 
     # ---- implementation -------------------------------------------------------------------------
     def run_impl(self, case):
+        if not case.get("canary"):
+            return self._run_impl1(case)
+        before = self._canary()
+        obs = self._run_impl1(case)
+        obs["canary"] = [before, self._canary()]
+        return obs
+
+    def _canary(self):
+        """digest of the observations of two fixed small scenarios (two REDPorts in one Environment, a monitored Port
+        built with default arguments and configured late)"""
+        import hashlib
+        import json
+        out = []
+        for c in CANARY_CASES:
+            o = self._run_impl1(c)
+            out.append([o.get("raised"), [[e[0], e[1] if e[0] in ("adv", "put") else e[1][0],
+                                           [x[:3] for x in e[2]] if e[0] in ("put", "step") else [], e[-1]] for e in o["log"]]])
+        return hashlib.sha1(json.dumps(out, sort_keys=True, default=str).encode()).hexdigest()[:16]
+
+    def _run_impl1(self, case):
         if case["kind"] in TWO:
             return self._run_impl2(case)
         from onl.sim import Environment
@@ -353,45 +429,36 @@ class PortPart:
                 for d in w["drivers"]:
                     h.add_driver(d["bursts"], late=d["late"])
             try:
-                if case["kind"] == "redport":
-                    r = case["red"]
-                    port = rmod.REDPort(env, rate, max_threshold=r["max"], min_threshold=r["min"],
-                                        max_probability=_num(r["maxp"]), element_id=case["eid"], qlimit=case["qlimit"],
-                                        weight_factor=r["w"], limit_bytes=case["limit_bytes"])
-                else:
-                    port = pmod.Port(env, rate, case["qlimit"], case["limit_bytes"], case["eid"])
+                port = self._make_port(env, case, pmod, rmod)
             except Exception as e:
                 return {"log": [], "raised": [type(e).__name__, str(e)[:300]], "exhausted": False, "where": "constructor"}
             tap = h.tap("out")
-            _tap_put = tap.put
-
-            def _put_and_read(p):
-                # what the port advertises at the very moment it hands the packet on (a downstream element that reacts
-                # inside its own put() -- an echo, a loop back into this port, a monitor hook -- sees exactly this)
-                at = [port.byte_size, int(port.busy)]
-                _tap_put(p)
-                if h.cur_outs:
-                    h.cur_outs[-1].append(["at-forward"] + at)
-            tap.put = _put_and_read
+            tap.put = self._reading_tap(h, port, tap.put)
             port.out = tap
             h.attach(port)
             h.watch_store("store", port.store)
             m = case.get("mon")
             if m and m.get("first"):
                 dist = Script(m["dist"], after=FAR)
-                mon = mmod.PortMonitor(env, port, dist, pkt_in_service_included=m["incl"])
-                g = mon.run()
-                g.__name__ = "mon"
-                env.process(g)
+                mon = self._make_monitor(env, port, dist, case, mmod)
             if not case.get("pre"):
                 for d in w["drivers"]:
                     h.add_driver(d["bursts"], late=d["late"])
             if m and not m.get("first"):
                 dist = Script(m["dist"], after=FAR)
-                mon = mmod.PortMonitor(env, port, dist, pkt_in_service_included=m["incl"])
-                g = mon.run()
-                g.__name__ = "mon"
-                env.process(g)
+                mon = self._make_monitor(env, port, dist, case, mmod)
+            rc = case.get("reconf")
+            if rc:
+                def reconfigure():
+                    d = ec.T(rc["at"]) - env.now
+                    if d > 0:
+                        yield env.timeout(d)
+                    for _ in range(rc["late"]):
+                        yield env.timeout(0)
+                    port.rate = _num(rc["rate"])
+                    port.qlimit = rc["qlimit"]
+                    h._action(["cfg", 1])
+                h.driver_procs.add(env.process(reconfigure()))
 
             def sample():
                 return [port.packets_received, port.packets_dropped, port.byte_size, len(port.store.items), int(port.busy),
@@ -409,11 +476,48 @@ class PortPart:
     @staticmethod
     def _make_port(env, sub, pmod, rmod):
         rate = _num(sub["rate"])
+        late = sub.get("late_cfg")
         if sub["kind"] == "redport":
             r = sub["red"]
-            return rmod.REDPort(env, rate, max_threshold=r["max"], min_threshold=r["min"], max_probability=_num(r["maxp"]),
-                                element_id=sub["eid"], qlimit=sub["qlimit"], weight_factor=r["w"], limit_bytes=sub["limit_bytes"])
-        return pmod.Port(env, rate, sub["qlimit"], sub["limit_bytes"], sub["eid"])
+            if not late:
+                return rmod.REDPort(env, rate, max_threshold=r["max"], min_threshold=r["min"], max_probability=_num(r["maxp"]),
+                                    element_id=sub["eid"], qlimit=sub["qlimit"], weight_factor=r["w"], limit_bytes=sub["limit_bytes"])
+            # other values and the defaults of the optional arguments first, the case's values by assignment
+            port = rmod.REDPort(env, 8 if rate != 8 else 64, r["max"] + 5, r["min"] + 3, 0.75 if _num(r["maxp"]) != 0.75 else 0.25,
+                                "zz", sub["qlimit"] + 7)
+            port.max_threshold, port.min_threshold, port.max_probability = r["max"], r["min"], _num(r["maxp"])
+            port.weight_factor = r["w"]
+        else:
+            if not late:
+                return pmod.Port(env, rate, sub["qlimit"], sub["limit_bytes"], sub["eid"])
+            port = pmod.Port(env, 8 if rate != 8 else 64, 1 if sub["qlimit"] != 1 else None, not sub["limit_bytes"], "zz")
+        port.rate, port.qlimit, port.limit_bytes, port.element_id = rate, sub["qlimit"], sub["limit_bytes"], sub["eid"]
+        return port
+
+    @staticmethod
+    def _make_monitor(env, port, dist, case, mmod):
+        m = case["mon"]
+        if case.get("late_cfg"):
+            mon = mmod.PortMonitor(env, port, lambda: 1)            # default pkt_in_service_included, another distribution
+            mon.dist, mon.pkt_in_service_included = dist, m["incl"]
+        else:
+            mon = mmod.PortMonitor(env, port, dist, pkt_in_service_included=m["incl"])
+        g = mon.run()
+        g.__name__ = "mon"
+        env.process(g)
+        return mon
+
+    @staticmethod
+    def _reading_tap(h, port, tap_put):
+        """what the port advertises at the very moment it hands the packet on (a downstream element that reacts inside its
+        own put() -- an echo, a loop back into this port, a monitor hook -- sees exactly this)"""
+        def put(p):
+            at = [port.byte_size, int(port.busy), port.busy_packet_size, port.packets_received, port.packets_dropped,
+                  len(port.store.items)]
+            tap_put(p)
+            if h.cur_outs:
+                h.cur_outs[-1].append(["at-forward"] + at)
+        return put
 
     def _run_impl2(self, case):
         """both instances live in ONE Environment; the global log carries, after every action, the public state of BOTH"""
@@ -456,13 +560,7 @@ class PortPart:
                 port = ports[i]
                 port.action._generator.__name__ = "run%d" % i          # disambiguate the two server processes
                 tap = h.tap("out%d" % i)
-
-                def _put_and_read(p, port=port, _tap_put=tap.put):
-                    at = [port.byte_size, int(port.busy)]
-                    _tap_put(p)
-                    if h.cur_outs:
-                        h.cur_outs[-1].append(["at-forward"] + at)
-                tap.put = _put_and_read
+                tap.put = self._reading_tap(h, port, tap.put)
                 port.out = tap
                 h.watch_store("store%d" % i, port.store)
             h.attach(ports[0])
@@ -604,6 +702,9 @@ class PortPart:
             if kind == "adv":
                 a = f"PAdvance {cf.q(e[1])}"
                 outs = []
+            elif kind == "cfg":
+                acts.append("CFG")              # the configuration changes here: the replay continues under the new one
+                continue
             elif kind == "put":
                 u = case["uniforms"][nu] if sample[6] > nu else None
                 if sample[6] > nu + 1:
@@ -661,7 +762,24 @@ class PortPart:
         acts, err = self._actions(case, obs)
         if acts is None:
             return f"false (* {err} *)"
-        return f"port_agree {self._cfg_term(case)} (port0 0) {cf.lst(acts, sep=';\n    ')}"
+        return self._replay_term("port_agree", case, acts, "")
+
+    def _replay_term(self, fn, case, acts, tail):
+        """fn cfg (port0 0) observed;  after a reconfiguration the model is re-instantiated with the new parameters in the
+        state it reached: the prefix is replayed (and must be admissible) under the old configuration, the rest under
+        the new one"""
+        if "CFG" not in acts:
+            return f"{fn} {self._cfg_term(case)} (port0 0) {cf.lst(acts, sep=';\n    ')}{tail}"
+        k = acts.index("CFG")
+        rest = [a for a in acts[k + 1:] if a != "CFG"]
+        rc = case["reconf"]
+        c2 = self._cfg_term({**case, "rate": rc["rate"], "qlimit": rc["qlimit"]})
+        none = "false" if fn == "port_agree" else "None"
+        first = f"port_agree {self._cfg_term(case)} (port0 0) o1"
+        second = (f"match port_run {self._cfg_term(case)} (port0 0) (map (fun x => fst (fst x)) o1) with\n"
+                  f"   | Some (s1, _) => {fn} {c2} s1 {cf.lst(rest, sep=';\n    ')}{tail}\n   | None => {none} end")
+        body = f"({first}) && ({second})" if fn == "port_agree" else f"(if {first} then {second} else {fn} {self._cfg_term(case)} (port0 0) o1{tail})"
+        return f"(let o1 : list (paction * list pout * pobs) := {cf.lst(acts[:k], sep=';\n    ')} in\n  {body})"
 
     def model_term(self, case):
         """diagnosis: index of the first observed action the model does not reproduce, with what the model did instead"""
@@ -683,7 +801,7 @@ class PortPart:
         acts, err = self._actions(case, obs)
         if acts is None:
             return None
-        return f"port_first_diff {self._cfg_term(case)} (port0 0) {cf.lst(acts, sep=';\n    ')} 0%nat"
+        return self._replay_term("port_first_diff", case, acts, " 0%nat")
 
     # ---- the property as an oracle over the implementation's behaviour -------------------------------
     def _walk(self, case, obs):
@@ -696,17 +814,24 @@ class PortPart:
         in_service = None    # uid whose transmission has started (rate > 0)
         items_prev = []      # uids in store.items after the previous action (observed identity of waiting packets)
         rate = F(case["rate"])
+        cur = {"rate": rate, "qlimit": case["qlimit"], "changed": False}
+        tx_rate = {}         # uid -> rate in force when the server took the packet
         for e in obs["log"]:
+            if e[0] == "cfg":
+                rate = F(case["reconf"]["rate"])
+                cur = {"rate": rate, "qlimit": case["reconf"]["qlimit"], "changed": True}
             rec = {"e": e, "now": now, "held_before": list(held), "items_before": list(items_prev),
-                   "in_service_before": in_service}
+                   "in_service_before": in_service, "cfg": cur, "tx_rate": tx_rate}
             if e[0] == "adv":
                 now = F(e[1])
                 rec["now"] = now
             outs = e[2] if e[0] in ("put", "step", "raise") else []
-            sample = e[-1] if e[0] in ("adv", "put", "step") else None
+            sample = e[-1] if e[0] in ("adv", "put", "step", "cfg") else None
             fw = [o for o in outs if o[0] == "out"]
-            if e[0] == "step" and e[1] == ["StoreGet", "store"] and rate > 0 and held:
-                in_service = held[0]
+            if e[0] == "step" and e[1] == ["StoreGet", "store"] and held:
+                tx_rate[held[0]] = rate
+                if rate > 0:
+                    in_service = held[0]
             for o in fw:
                 if o[2] in held:
                     held.remove(o[2])
@@ -726,14 +851,15 @@ class PortPart:
     def monitor(self, case, obs, prop_id):
         if obs["raised"]:
             return [f"port-raises: {case['kind']} raised {obs['raised']} ({obs.get('where', 'during the run')})"]
+        pre = self._canary_msgs(obs)
         if case["kind"] in TWO:
-            return self._monitor2(case, obs, prop_id)
-        return (self._monitor_c09 if prop_id == "C09" else self._monitor_c08)(case, obs)[:4]
+            return pre + self._monitor2(case, obs, prop_id)
+        return pre + (self._monitor_c09 if prop_id == "C09" else self._monitor_c08)(case, obs)[:5]
 
-    def _red_expect(self, case, avg, u):
+    def _red_expect(self, case, avg, u, ql):
         """-> (must_draw, refused) by the property's three regions"""
         r = case["red"]
-        mn, mx, mp, ql = F(r["min"]), F(r["max"]), F(r["maxp"]), F(case["qlimit"])
+        mn, mx, mp, ql = F(r["min"]), F(r["max"]), F(r["maxp"]), F(ql)
         if avg >= ql:
             return False, True
         if avg < mn:
@@ -742,21 +868,53 @@ class PortPart:
         return True, (u is not None and u <= p)
 
     def _at_forward(self, case, obs):
-        """the advertised byte occupancy must already exclude a packet at the moment it is forwarded"""
+        """what a next hop sees of the port inside its own put(): the packet handed on has left the byte occupancy, the
+        port is still busy with exactly this packet (the service flags are cleared when the hand-off returns), the arrival
+        counters and the waiting queue are those of the moment before (the server has not asked for the next packet yet)"""
         msgs = []
         specs = case["workload"]["packets"]
-        prev_bytes = 0
+        prev = [0, 0, 0, 0]
         for e in obs["log"]:
             outs = e[2] if e[0] in ("put", "step") else []
             for o in outs:
                 if o[0] == "out" and isinstance(o[-1], list) and o[-1] and o[-1][0] == "at-forward":
                     sz = specs[str(o[2])]["size"]
-                    if o[-1][1] != prev_bytes - sz:
-                        msgs.append(f"port-bytes-at-forward: while packet {o[2]} (size {sz}) is handed on, byte_size reads {o[-1][1]}; "
-                                    f"{prev_bytes} bytes were held before and the packet has left: expected {prev_bytes - sz}")
-            if e[0] in ("adv", "put", "step"):
-                prev_bytes = e[-1][2]
-        return msgs[:1]
+                    at = o[-1][1:]
+                    head = f"while packet {o[2]} (size {sz}) is handed on"
+                    if at[0] != prev[2] - sz:
+                        msgs.append(f"port-bytes-at-forward: {head}, byte_size reads {at[0]}; {prev[2]} bytes were held before "
+                                    f"and the packet has left: expected {prev[2] - sz}")
+                        prev[2] = at[0] + sz
+                    if len(at) >= 6:
+                        if at[1] != 1:
+                            msgs.append(f"port-busy-at-forward: {head}, busy reads {at[1]}; the port is busy until the hand-off returns")
+                        if at[2] != sz:
+                            msgs.append(f"port-busy-size-at-forward: {head}, busy_packet_size reads {at[2]}")
+                        if at[3] != prev[0] or at[4] != prev[1]:
+                            msgs.append(f"port-counters-at-forward: {head}, packets_received/dropped read {at[3]}/{at[4]}, "
+                                        f"before the step {prev[0]}/{prev[1]}")
+                        if at[5] != prev[3]:
+                            msgs.append(f"port-queue-at-forward: {head}, len(store.items) reads {at[5]}, {prev[3]} packets were waiting")
+            if e[0] in ("adv", "put", "step", "cfg"):
+                prev = [e[-1][0], e[-1][1], e[-1][2], e[-1][3]]
+        seen, out = set(), []
+        for m in msgs:
+            if m.split(":")[0] not in seen:
+                seen.add(m.split(":")[0])
+                out.append(m)
+        return out
+
+    def _canary_msgs(self, obs):
+        c = obs.get("canary")
+        if not c:
+            return []
+        if c[0] != c[1]:
+            return [f"runs-interfere: the fixed canary scenario behaves differently after this case than before it in the same "
+                    f"process (digest {c[0]} -> {c[1]}): state survives the end of a run"]
+        if c[1] != CANARY_DIGEST:
+            return [f"canary-observation: the fixed canary scenario gives digest {c[1]}, recorded {CANARY_DIGEST} "
+                    f"(state left by an earlier run of this process, or a changed behaviour)"]
+        return []
 
     def _monitor_c09(self, case, obs):
         msgs = self._at_forward(case, obs)
@@ -771,8 +929,10 @@ class PortPart:
         avg = F(0)
         nu = 0
         nsamp = 0
+        tx_rate = {}
         for r in self._walk(case, obs):
             e, now, s, size = r["e"], r["now"], r["sample"], r["size"]
+            ql, rate, tx_rate = r["cfg"]["qlimit"], r["cfg"]["rate"], r["tx_rate"]      # the configuration as of this action
             hb = sum(size[u] for u in r["held_before"])
             for o in r["forwards"]:
                 departed.append((o[2], now))
@@ -792,7 +952,7 @@ class PortPart:
                         avg = F(s[5])
                     drew = s[6] > nu
                     u = F(case["uniforms"][nu]) if drew else None
-                    must_draw, refuse = self._red_expect(case, avg, u)
+                    must_draw, refuse = self._red_expect(case, avg, u, ql)
                     if must_draw and not drew:
                         refuse = None
                         msgs.append(f"red-curve: no uniform draw for packet {uid} although min <= avg={avg} < qlimit")
@@ -836,7 +996,7 @@ class PortPart:
                 if [u for u in r["held"] if u in s[7]] != s[7] or len(extra) > 1 or (extra and extra[0] != r["held"][0]):
                     msgs.append(f"port-held-order: store holds {s[7]} while accepted-not-forwarded is {r['held']}")
                 # --- occupancy never exceeds the limit (tail drop)
-                if not red and ql is not None:
+                if not red and ql is not None and not r["cfg"]["changed"]:
                     if lb and held_bytes > ql:
                         msgs.append(f"port-occupancy: {held_bytes} bytes held exceed the limit {ql}")
                     if not lb and len(r["held"]) > max(ql, 0):
@@ -858,7 +1018,8 @@ class PortPart:
         prev = None
         for uid, a in arrivals:
             start = a if prev is None else max(a, prev)
-            d = start + (F(8 * specs[str(uid)]["size"]) / rate if rate > 0 else 0)
+            rk = tx_rate.get(uid, rate)                 # the rate in force when the server took this packet
+            d = start + (F(8 * specs[str(uid)]["size"]) / rk if rk > 0 else 0)
             exp.append((uid, d))
             prev = d
         if obs["exhausted"]:
@@ -867,7 +1028,8 @@ class PortPart:
             ok = departed == exp[:len(departed)]
         if not ok:
             msgs.append(f"port-departure: forwarded (uid,time) {[(u, str(t)) for u, t in departed][:8]} expected "
-                        f"{[(u, str(t)) for u, t in exp][:8]} (max(arrival, previous departure) + 8*size/rate, FIFO; rate={rate})")
+                        f"{[(u, str(t)) for u, t in exp][:8]} (max(arrival, previous departure) + 8*size/rate, FIFO; rate={case['rate']}"
+                        f"{' then ' + str(case['reconf']['rate']) if case.get('reconf') else ''})")
         return msgs
 
     def _monitor_c08(self, case, obs):
@@ -948,6 +1110,9 @@ class PortPart:
             yield {**case, "kind": "port", "mon": None}
         if case.get("pre"):
             yield {**case, "pre": False}
+        for k in ("canary", "late_cfg", "reconf"):
+            if case.get(k):
+                yield {**case, k: None}
         if case.get("eid") not in (None, "p1"):
             yield {**case, "eid": "p1"}
 
@@ -959,6 +1124,10 @@ class PortPart:
                     f"{k}:packets={min(sum(len(sub['workload']['packets']) for sub in case['insts']), 16)}"]
             if case.get("pre"):
                 keys.append(f"{k}:driver-created-before-element")
+            if any(sub.get("late_cfg") for sub in case["insts"]):
+                keys.append(f"{k}:late-configuration")
+            if case.get("canary"):
+                keys.append(f"{k}:canary-before-and-after")
             return keys
         keys = [k, f"{k}:rate={case['rate']}", f"{k}:packets={min(len(case['workload']['packets']), 12)}",
                 f"{k}:drivers={len(case['workload']['drivers'])}", f"{k}:eid={case['eid']!r}"]
@@ -968,8 +1137,16 @@ class PortPart:
             keys.append(f"{k}:limit=" + ("none" if case["qlimit"] is None else ("bytes" if case["limit_bytes"] else "packets")))
         if case.get("pre"):
             keys.append(f"{k}:driver-created-before-element")
+        for fl in ("late_cfg", "reconf", "canary"):
+            if case.get(fl):
+                keys.append(f"{k}:{fl}")
+        ids = {}
+        for sp in case["workload"]["packets"].values():
+            ids.setdefault(sp["id"], set()).add(sp["flow"])
+        if any(len(v) > 1 for v in ids.values()):
+            keys.append(f"{k}:equal-packet-ids-in-different-flows")
         if not obs.get("raised"):
-            nd = max([e[-1][1] for e in obs["log"] if e[0] in ("adv", "put", "step")] or [0])
+            nd = max([e[-1][1] for e in obs["log"] if e[0] in ("adv", "put", "step", "cfg")] or [0])
             keys.append(f"{k}:refused={'0' if nd == 0 else '1+'}")
         return keys
 
